@@ -57,6 +57,11 @@ func init() {
 		ThoroughSecs: 1800,
 		MaxChoices:   400000,
 		Run: func(r *vfw.Run) {
+			// thorough tier: the first 1092 run indexes enumerate every layout of <= 5 candidates with 0-2 flips each, for 3 seeds
+			if r.Tier == "thorough" && r.Index < c16SmallLayouts*3 {
+				c16Enumerated(r, r.Index/3, r.Index%3)
+				return
+			}
 			if r.Choose("c16.kind", 3) == 0 {
 				n := 4 + r.Choose("c16.ndirect", 12)
 				for i := 0; i < n; i++ {
@@ -70,6 +75,43 @@ func init() {
 }
 
 // ---------------- the lottery as a function ----------------
+
+// c16SmallLayouts: number of layouts with 0..5 candidates, each with 0, 1 or 2 flips (sum of 3^n for n = 0..5).
+const c16SmallLayouts = 1 + 3 + 9 + 27 + 81 + 243
+
+// c16Enumerated checks the k-th small layout with the s-th fixed seed.
+func c16Enumerated(r *vfw.Run, k, sd int) {
+	nc := 0
+	for pow := 1; k >= pow; pow *= 3 {
+		k -= pow
+		nc++
+	}
+	var cands []ceremony.VerifCand
+	flipsOf := map[int][][]byte{}
+	nflips, nauthors := 0, 0
+	code := k
+	for i := 0; i < nc; i++ {
+		id := scen.NewIdent("lot", i)
+		c := ceremony.VerifCand{Addr: id.Addr, PubKey: id.PubK}
+		nf := code % 3
+		code /= 3
+		for j := 0; j < nf; j++ {
+			f, _ := scen.SimCid([]byte(fmt.Sprintf("flip-%d-%d", i, j)))
+			flipsOf[i] = append(flipsOf[i], f)
+			nflips++
+		}
+		if nf > 0 {
+			c.IsAuthor = true
+			nauthors++
+		}
+		cands = append(cands, c)
+	}
+	seed := make([]byte, 32)
+	copy(seed, [][]byte{{1, 2, 3, 4, 5, 6, 7, 8}, {0xff, 0xfe, 0x10, 0, 0, 0x80, 0x7f, 0x01}, {0, 0, 0, 0, 0, 0, 0, 0}}[sd])
+	c16CheckLayout(r, cands, flipsOf, seed, fmt.Sprintf("enumerated layout: candidates=%d flips per candidate code=%d seed #%d", nc, k, sd))
+	r.Probe("small_layout_enumerated")
+	r.Case(fmt.Sprintf("e/%d/%d/%d", nc, k, sd), nauthors >= 2 && nc >= 3)
+}
 
 func c16Direct(r *vfw.Run, exhaustiveIdx int) {
 	t := r.Tape
